@@ -162,7 +162,8 @@ Proof.
   - destruct (negb _); [injection H as <- <-; apply keeps_closed; [exact A|apply keeps_refl]|].
     destruct (hb_all_closed (HKJ eq_refl) _ _ _ _ _ _ (HJ eq_refl) H) as (-> & B & C).
     split; [reflexivity|]. split; [apply JK, B|exact C].
-  - destruct (valid_dev r idev); [|injection H as <- <-; apply keeps_closed; [exact A|apply keeps_refl]]. cbv zeta in H.
+  - destruct (is_active_node (rn r)); cbn [andb] in H; [|injection H as <- <-; apply keeps_closed; [exact A|apply keeps_refl]].
+    destruct (valid_dev r idev); [|injection H as <- <-; apply keeps_closed; [exact A|apply keeps_refl]]. cbv zeta in H.
     eapply osend_closed; [exact (HJ eq_refl)| |exact H]. intros Y r2 ev2 O E. cbv beta zeta in E.
     rewrite rsend_not_open in E by (rewrite rn_chk_dev; exact O). injection E as <- <-. split; [reflexivity|].
     eapply keeps_trans; [apply keeps_chk_dev|apply keeps_with_rn_same].
